@@ -82,10 +82,10 @@ void *thread_main(void *arg)
                 // a plain owner held by this thread: the memory must be alive before and after it shares
                 void *m = cstl_shared_ptr_get(s);
                 ((volatile char *)m)[16 + t.id] = 3;
-                if (g_clr.load() != 0) fail("C06.clear.owner_remains", "this thread holds an owning shared pointer, but the clear callback already ran");
+                if (g_clr.load() != 0 || g_managed_frees.load() != 0) fail("C06.clear.owner_remains", "this thread holds an owning shared pointer, but the memory was already cleared or freed");
                 cstl_shared_ptr_share(s, free_slot(t, s));
                 ((volatile char *)m)[16 + t.id] = 4;
-                if (g_clr.load() != 0) fail("C06.clear.owner_remains", "this thread holds an owning shared pointer, but the clear callback already ran");
+                if (g_clr.load() != 0 || g_managed_frees.load() != 0) fail("C06.clear.owner_remains", "this thread holds an owning shared pointer, but the memory was already cleared or freed");
             }
             break;
         }
@@ -101,10 +101,10 @@ void *thread_main(void *arg)
             if (m) {
                 t.locks_ok++;
                 ((volatile char *)m)[8 + t.id] = 2;  // each thread touches its own byte (the caller mediates access to the memory)
-                if (g_clr.load() != 0) fail("C06.lock.live", "holding an owner obtained by lock, but the clear callback already ran");
+                if (g_clr.load() != 0 || g_managed_frees.load() != 0) fail("C06.lock.live", "holding an owner obtained by lock, but the memory was already cleared or freed");
                 sched_yield();
                 ((volatile char *)m)[t.id] = 1;
-                if (g_clr.load() != 0) fail("C06.lock.live", "holding an owner obtained by lock, but the clear callback already ran");
+                if (g_clr.load() != 0 || g_managed_frees.load() != 0) fail("C06.lock.live", "holding an owner obtained by lock, but the memory was already cleared or freed");
                 cstl_shared_ptr_reset(d);
             } else t.locks_failed++;
             break;
@@ -159,7 +159,8 @@ int main(int argc, char **argv)
         cstl_shared_ptr_t root;
         cstl_shared_ptr_init(&root);
         g_alloc_phase = 1;
-        cstl_shared_ptr_alloc(&root, 1000, clr_cb);
+        const bool has_clr = (it & 3) != 3;       // every fourth scenario: memory without a clear callback
+        cstl_shared_ptr_alloc(&root, 1000, has_clr ? clr_cb : nullptr);
         g_alloc_phase = 2;
         if (!cstl_shared_ptr_get(&root)) continue;
         g_scen = "seed=" + std::to_string(seed) + " worker=" + std::to_string(worker) + " it=" + std::to_string(it) + " T=" + std::to_string(T);
@@ -193,7 +194,7 @@ int main(int argc, char **argv)
         for (int t = 0; t < T; t++) pthread_join(tid[t], nullptr);
         pthread_barrier_destroy(&g_bar);
         g_alloc_phase = 0;
-        if (g_clr.load() != 1) fail("C06.clear.once", ("clear callback ran " + std::to_string(g_clr.load()) + " times").c_str());
+        if (g_clr.load() != (has_clr ? 1 : 0)) fail("C06.clear.once", ("clear callback ran " + std::to_string(g_clr.load()) + " times").c_str());
         if (g_managed_frees.load() != 1) fail("C06.free.once", ("managed memory freed " + std::to_string(g_managed_frees.load()) + " times").c_str());
         if (g_book_frees.load() != 1) fail("C06.book.once", ("bookkeeping block freed " + std::to_string(g_book_frees.load()) + " times").c_str());
         for (int t = 0; t < T; t++) { locks_ok += TH[t].locks_ok; locks_failed += TH[t].locks_failed; }
